@@ -575,7 +575,7 @@ func runC15(c *lib.Ctx) error {
 
 	// Part S: structured layouts one by one, then random ones, then groups (several assets in one tree)
 	structured := structuredLayouts()
-	nDamage, nRandom, nGroups := 3, 150, 12
+	nDamage, nRandom, nGroups := 3, 110, 10
 	if c.Thorough() {
 		nDamage, nRandom, nGroups = 9, 2000, 150
 	}
